@@ -4,19 +4,15 @@ import Hive.Gen.C08_Skel
 # C08 — BatchedWriter never loses or half-writes an enqueued object
 
 Property theorems only.  Model: `Hive/Model/BatchWriter.lean` (kvstore/batch_writer.go and
-batch_collector.go after `fix: BatchedWriter must add to its WaitGroup before starting the writer goroutine`).
-The property is the decidable trace predicate `Spec.BatchWriter.ok` / `okFinal` (`Hive/Spec/BatchWriter.lean`),
-the same definition the driver evaluates on traces recorded from the implementation.  Every theorem quantifies
-over every queue size `q`, batch size `b`, every pool of threads (`Init`: any number of producers with any
-scripts, Stop callers, Flush callers, store observers) and every reachable configuration, i.e. every
-interleaving of every length.
-
-The code has one life-cycle window left (`Enqueue` between its `running` check and `scheduledCount.Add(1)`
-while `StopBatchWriter` clears `running`).  The ghost flag `raced` records exactly that: it is set by Stop's
-`running.Store(false)` step iff some producer is inside the window at that moment (`C08_window_counter`).
-Theorems that need "no such race" carry it as a hypothesis and are named `_partial`; the corresponding
-`_witness` theorems exhibit schedules on which the model violates the full statement (`C08_statement`); the
-same schedules are forced on the real code by the harness (`window`, `window-dup`, `window-block`).
+batch_collector.go after `fix: BatchedWriter must add to its WaitGroup before starting the writer goroutine`
+and `fix: BatchedWriter.Enqueue must count the object before checking running`).  The property is the
+decidable trace predicate `Spec.BatchWriter.ok` / `okFinal` (`Hive/Spec/BatchWriter.lean`), the same definition
+the driver evaluates on traces recorded from the implementation.  Every theorem quantifies over every queue
+size `q`, batch size `b`, every pool of threads (`Init`: any number of producers with any scripts, Stop
+callers, Flush callers, store observers) and every reachable configuration, i.e. every interleaving of every
+length.  No theorem carries a hypothesis about the schedule any more: the Enqueue/Stop window of the old
+code (running check before the counter increment) is closed; the old protocol is kept as `sysOld` and the
+schedules on which it violates the property are the `C08_old_*_witness` theorems.
 -/
 namespace Hive.BatchWriter
 open Hive.Conc Hive.Spec.BatchWriter
@@ -24,8 +20,15 @@ open Hive.Conc Hive.Spec.BatchWriter
 /-- The observable trace of a configuration, oldest event first. -/
 def trace (c : Cfg St Thread) : List Event := c.1.tr.reverse
 
-theorem not_mem_errs {c : Cfg St Thread} (hi : Inv c) (w : Why) (hw : w ≠ .stopReturnedEarly) :
-    w ∉ c.1.mon.errs := fun h => hw (hi.n.errs w h).1
+/-- **The trace predicate holds on every trace of the model**: no check of the monitor ever fails. -/
+theorem C08_ok {q b : Nat} {c0 c : Cfg St Thread} (h0 : Init q b c0) (hr : Reach sys c0 c) :
+    ok (trace c) = true := by
+  have hi := inv_reach h0 hr
+  simp only [ok, trace, ← mon_eq_run h0 hr, hi.n.errs, List.isEmpty_nil]
+
+theorem errs_nil {q b : Nat} {c0 c : Cfg St Thread} (h0 : Init q b c0) (hr : Reach sys c0 c) :
+    (Mon.run (trace c)).errs = [] := by
+  rw [trace, ← mon_eq_run h0 hr]; exact (inv_reach h0 hr).n.errs
 
 /-- **Written and committed before Done.**  On every trace of the model no `BatchWriteDone(o)` happens
 unless a `BatchWrite(o)` that has been committed is still waiting for its Done; at every moment
@@ -33,22 +36,24 @@ unless a `BatchWrite(o)` that has been committed is still waiting for its Done; 
 theorem C08_written_before_done {q b : Nat} {c0 c : Cfg St Thread} (h0 : Init q b c0) (hr : Reach sys c0 c) :
     Why.doneBeforeCommit ∉ (Mon.run (trace c)).errs ∧
     ∀ o, (Mon.run (trace c)).dn o ≤ (Mon.run (trace c)).com o ∧ (Mon.run (trace c)).com o ≤ (Mon.run (trace c)).wr o := by
+  refine ⟨by simp [errs_nil h0 hr], ?_⟩
   have hi := inv_reach h0 hr
   rw [trace, ← mon_eq_run h0 hr]
-  refine ⟨not_mem_errs hi _ (by decide), fun o => ?_⟩
+  intro o
   have h1 := (hi.wo o).dn_com
   have h2 := (hi.wo o).com_wr
   constructor <;> omega
 
 /-- **Once per scheduling.**  No `BatchWrite(o)` without a scheduling of `o` that has not been written yet:
-`#Done(o) ≤ #BatchWrite(o) ≤ #successful BatchWriteScheduled(o)` at every moment of every trace (equality at
-the end is `C08_racing_enqueue_all_or_nothing_partial`). -/
+`#Done(o) ≤ #BatchWrite(o) ≤ #successful BatchWriteScheduled(o)` at every moment of every trace (equality once
+the writer has terminated: `C08_racing_enqueue_all_or_nothing`). -/
 theorem C08_done_once_per_scheduling {q b : Nat} {c0 c : Cfg St Thread} (h0 : Init q b c0) (hr : Reach sys c0 c) :
     Why.writeUnscheduled ∉ (Mon.run (trace c)).errs ∧
     ∀ o, (Mon.run (trace c)).dn o ≤ (Mon.run (trace c)).wr o ∧ (Mon.run (trace c)).wr o ≤ (Mon.run (trace c)).sch o := by
+  refine ⟨by simp [errs_nil h0 hr], ?_⟩
   have hi := inv_reach h0 hr
   rw [trace, ← mon_eq_run h0 hr]
-  refine ⟨not_mem_errs hi _ (by decide), fun o => ?_⟩
+  intro o
   have h1 := (hi.wo o).dn_com
   have h2 := (hi.wo o).com_wr
   have h3 := (hi.wo o).wr_rst
@@ -61,91 +66,85 @@ theorem C08_store_is_last_write {q b : Nat} {c0 c : Cfg St Thread} (h0 : Init q 
     Why.storeMismatch ∉ (Mon.run (trace c)).errs ∧
     (∀ o, c.1.store o = (Mon.run (trace c)).lastCom o) ∧
     (c.1.muts = [] → ∀ o, c.1.store o = (Mon.run (trace c)).lastW o) := by
+  refine ⟨by simp [errs_nil h0 hr], ?_⟩
   have hi := inv_reach h0 hr
   rw [trace, ← mon_eq_run h0 hr]
-  refine ⟨not_mem_errs hi _ (by decide), hi.ws.store_eq, fun hm o => ?_⟩
+  refine ⟨hi.ws.store_eq, fun hm o => ?_⟩
   rw [hi.ws.lastW_eq o, hm, hi.ws.store_eq o]
   rfl
 
-/-- The model never reports a blocked call or a panic by itself, and the other checks cannot fail: the
-only check of the trace predicate that can fail on a model trace is `stop-returned-early`, and only after a
-race in the Enqueue window. -/
-theorem C08_only_stop_can_fail {q b : Nat} {c0 c : Cfg St Thread} (h0 : Init q b c0) (hr : Reach sys c0 c) :
-    ∀ w ∈ (Mon.run (trace c)).errs, w = .stopReturnedEarly ∧ c.1.raced = true := by
-  have hi := inv_reach h0 hr
-  rw [trace, ← mon_eq_run h0 hr]
-  exact hi.n.errs
+/-- **Stop waits.**  Every `StopBatchWriter` return on every trace found every object whose `Enqueue` had
+returned before Stop was first invoked written (by a BatchWrite that started after that Enqueue call),
+committed and done — for every interleaving, including producers racing with Stop. -/
+theorem C08_stop_waits {q b : Nat} {c0 c : Cfg St Thread} (h0 : Init q b c0) (hr : Reach sys c0 c) :
+    Why.stopReturnedEarly ∉ (Mon.run (trace c)).errs := by
+  simp [errs_nil h0 hr]
 
-/-- **Stop waits** (partial: hypothesis `raced = false`, i.e. no producer was between its `running` check
-and its counter increment when Stop cleared `running`).  Then every `StopBatchWriter` return on the trace
-found every object whose `Enqueue` had returned before Stop was first invoked written, committed and done.
-Missing for the full statement: the code does lose such objects after a race, see `C08_stop_waits_witness`. -/
-theorem C08_stop_waits_partial {q b : Nat} {c0 c : Cfg St Thread} (h0 : Init q b c0) (hr : Reach sys c0 c)
-    (hrace : c.1.raced = false) : Why.stopReturnedEarly ∉ (Mon.run (trace c)).errs := by
-  intro h
-  have := (C08_only_stop_can_fail h0 hr _ h).2
-  simp [hrace] at this
-
-/-- The whole trace predicate holds on every trace without a window race. -/
-theorem C08_ok_partial {q b : Nat} {c0 c : Cfg St Thread} (h0 : Init q b c0) (hr : Reach sys c0 c)
-    (hrace : c.1.raced = false) : ok (trace c) = true := by
-  have h := C08_only_stop_can_fail h0 hr
-  simp only [ok, List.isEmpty_iff]
-  cases he : (Mon.run (trace c)).errs with
-  | nil => rfl
-  | cons w ws =>
-    have := (h w (by simp [he])).2
-    simp [hrace] at this
-
-/-- What Stop waits for, directly on the state: once the writer goroutine has left its loop (Stop's
-`Wait` returns only then) without a window race, every scheduling of every object has been written,
-committed and done, and Stop's obligations are met. -/
-theorem C08_stop_waits_state_partial {q b : Nat} {c0 c : Cfg St Thread} (h0 : Init q b c0) (hr : Reach sys c0 c)
-    (hrace : c.1.raced = false) (hex : c.1.wpc = .exited) :
+/-- What Stop waits for, directly on the state: once the writer goroutine has left its loop (Stop's `Wait`
+returns only then) every scheduling of every object has been written, committed and done, and Stop's
+obligations are met. -/
+theorem C08_stop_waits_state {q b : Nat} {c0 c : Cfg St Thread} (h0 : Init q b c0) (hr : Reach sys c0 c)
+    (hex : c.1.wpc = .exited) :
     ∀ o, (Mon.run (trace c)).need o ≤ (Mon.run (trace c)).dn o ∧ (Mon.run (trace c)).sch o = (Mon.run (trace c)).dn o := by
   have hi := inv_reach h0 hr
   rw [trace, ← mon_eq_run h0 hr]
   intro o
-  have h1 := hi.n.fin hrace (Or.inr hex) o
+  have h1 := hi.n.fin (Or.inr hex) o
   have h2 := hi.n.need_sch o
   constructor <;> omega
 
-/-- **A racing Enqueue is all-or-nothing** (partial: hypothesis `raced = false`).  When the writer has
-terminated, every object is either untouched by a scheduling or every one of its schedulings was written,
-committed and done: the final check of the trace predicate holds, so the complete-run predicate `okFinal`
-holds.  Missing for the full statement: `C08_racing_enqueue_witness`. -/
-theorem C08_racing_enqueue_all_or_nothing_partial {q b : Nat} {c0 c : Cfg St Thread} (h0 : Init q b c0)
-    (hr : Reach sys c0 c) (hrace : c.1.raced = false) (hex : c.1.wpc = .exited) : okFinal (trace c) = true := by
-  have h := C08_stop_waits_state_partial h0 hr hrace hex
-  simp only [okFinal, C08_ok_partial h0 hr hrace, Bool.true_and, Mon.finalOk, List.all_eq_true, decide_eq_true_eq]
+/-- **A racing Enqueue is all-or-nothing.**  When the writer has terminated, every object is either
+untouched by a scheduling or every one of its schedulings was written, committed and done: the final check of
+the trace predicate holds, so the complete-run predicate `okFinal` holds. -/
+theorem C08_racing_enqueue_all_or_nothing {q b : Nat} {c0 c : Cfg St Thread} (h0 : Init q b c0)
+    (hr : Reach sys c0 c) (hex : c.1.wpc = .exited) : okFinal (trace c) = true := by
+  have h := C08_stop_waits_state h0 hr hex
+  simp only [okFinal, C08_ok h0 hr, Bool.true_and, Mon.finalOk, List.all_eq_true, decide_eq_true_eq]
   intro o _
   exact (h o).2
 
-/-- Meaning of the ghost flag `raced`: the window counter it is computed from is exactly the number of
-producer threads between their `running` check and their counter increment. -/
-theorem C08_window_counter {q b : Nat} {c0 c : Cfg St Thread} (h0 : Init q b c0) (hr : Reach sys c0 c) :
-    c.1.win = c.2.countP inWin :=
-  (inv_reach h0 hr).cnt.win
+/-- After the writer has terminated no producer is past a successful `running` check (none can still mark an
+object scheduled or send it): an Enqueue that comes too late backs out without touching its object. -/
+theorem C08_late_enqueue_backs_out {q b : Nat} {c0 c : Cfg St Thread} (h0 : Init q b c0) (hr : Reach sys c0 c)
+    (hex : c.1.wpc = .exited) : c.2.countP inWin = 0 := by
+  have hi := inv_reach h0 hr
+  rw [← hi.cnt.win]
+  exact hi.l.fin_win (Or.inr hex)
 
-/-- **No call blocks for ever** (partial).  Hypothesis `raced = false`.  Proved: no reachable configuration
-is a deadlock — whenever some Enqueue / Stop / Flush call is unfinished, some thread can move; in particular
-a producer blocked on the full queue implies the writer goroutine is alive, and Stop blocked in `Wait` implies
-the writer is alive or about to be started.  Missing for the full statement: (i) after a window race a
-producer does block for ever (`C08_no_block_forever_witness`); (ii) the step from "no deadlock" to "every
-blocked call eventually moves under fair scheduling" (a variant argument over queue length, batch progress and
-remaining scripts) is not formalised. -/
+/-- **No call blocks for ever** (partial).  Proved, for every reachable configuration: no deadlock — whenever
+some Enqueue / Stop / Flush call is unfinished, some thread can move; in particular a producer blocked on the
+full queue implies the writer goroutine is alive (it has counted itself before the writer could leave), and
+Stop blocked in `Wait` implies the writer is alive or about to be started.  Missing for the full statement
+(third clause of `C08_statement`): the step from "no deadlock" to "every blocked call eventually moves under
+fair scheduling" (a variant argument over queue length, batch progress and remaining scripts) is not
+formalised. -/
 theorem C08_no_block_forever_partial {q b : Nat} {c0 c : Cfg St Thread} (h0 : Init q b c0)
-    (hw : Thread.writer ∈ c0.2) (hr : Reach sys c0 c) (hrace : c.1.raced = false) :
+    (hw : Thread.writer ∈ c0.2) (hr : Reach sys c0 c) :
     ¬ Deadlock sys (fun t => t.finished = true) c :=
-  no_deadlock (inv_reach h0 hr) (writer_mem_reach hw hr) hrace
+  no_deadlock (inv_reach h0 hr) (writer_mem_reach hw hr)
 
-/-! ### Hypotheses are satisfiable: a complete race-free run -/
+/-- The property at full strength for a protocol `S`: on every reachable configuration the trace predicate
+holds, after the writer has terminated the final (all-or-nothing) check holds, and no unfinished Enqueue /
+Stop call is blocked for ever (some continuation lets it take a step). -/
+def C08_statement_for (S : Sys St Thread) : Prop :=
+  ∀ (q b : Nat) (c0 c : Cfg St Thread), 0 < b → Init q b c0 → Thread.writer ∈ c0.2 → Reach S c0 c →
+    ok (trace c) = true ∧
+    (c.1.wpc = .exited → (Mon.run (trace c)).finalOk = true) ∧
+    (∀ (i : Nat) (t : Thread), c.2[i]? = some t → t.finished = false →
+      ∃ c', Reach S c c' ∧ ∃ t', c'.2[i]? = some t' ∧ S.step c'.1 t' ≠ [])
 
-/-- producer 0 enqueues object 0 completely, the writer takes it, writes, commits, calls Done; Stop;
-the writer exits; Stop returns. -/
-def goodSched : List (Nat × Nat) := rep 0 15 ++ rep 2 9 ++ rep 1 4 ++ rep 2 3 ++ rep 1 3
+def C08_statement : Prop := C08_statement_for sys
 
-def goodCfg : Cfg St Thread := runSched sys (initSt 1 1, witnessThreads 1 (fun _ => 0)) goodSched
+/-- The safety clauses of `C08_statement` hold for the repaired code (the progress clause only as
+`C08_no_block_forever_partial`). -/
+theorem C08_statement_safety {q b : Nat} {c0 c : Cfg St Thread} (h0 : Init q b c0) (hr : Reach sys c0 c) :
+    ok (trace c) = true ∧ (c.1.wpc = .exited → (Mon.run (trace c)).finalOk = true) := by
+  refine ⟨C08_ok h0 hr, fun hex => ?_⟩
+  have := C08_racing_enqueue_all_or_nothing h0 hr hex
+  simp only [okFinal, C08_ok h0 hr, Bool.true_and] at this
+  exact this
+
+/-! ### Non-vacuity: complete runs of the repaired model, among them the three formerly failing schedules -/
 
 theorem init_witness (q p : Nat) (f : Nat → Nat) : Init q 1 (initSt q 1, witnessThreads p f) := by
   refine ⟨rfl, ?_, ?_⟩
@@ -161,97 +160,108 @@ theorem init_witness (q p : Nat) (f : Nat → Nat) : Init q 1 (initSt q 1, witne
     rw [this, e, List.append_nil]
     exact List.nodup_range
 
+/-- producer 0 enqueues object 0 completely, the writer takes it, writes, commits, calls Done; Stop;
+the writer exits; Stop returns. -/
+def goodSched : List (Nat × Nat) := rep 0 15 ++ rep 2 9 ++ rep 1 4 ++ rep 2 3 ++ rep 1 3
+
+def goodCfg : Cfg St Thread := runSched sys (initSt 1 1, witnessThreads 1 (fun _ => 0)) goodSched
+
 set_option maxRecDepth 4000 in
-example : goodCfg.1.raced = false ∧ goodCfg.1.wpc = .exited ∧ okFinal (trace goodCfg) = true ∧
+example : goodCfg.1.wpc = .exited ∧ okFinal (trace goodCfg) = true ∧
     (Mon.run (trace goodCfg)).dn 0 = 1 ∧ (trace goodCfg).length = 10 := by decide
 
-example : Reach sys (initSt 1 1, witnessThreads 1 (fun _ => 0)) goodCfg := runSched_reach _ _ _
-
-/-! ### The full statement, and the schedules on which the code (hence the model) violates it -/
-
-/-- The property at full strength: on every reachable configuration the trace predicate holds, after the
-writer has terminated the final (all-or-nothing) check holds, and no unfinished Enqueue / Stop call is
-blocked for ever (some continuation lets it take a step). -/
-def C08_statement : Prop :=
-  ∀ (q b : Nat) (c0 c : Cfg St Thread), 0 < b → Init q b c0 → Thread.writer ∈ c0.2 → Reach sys c0 c →
-    ok (trace c) = true ∧
-    (c.1.wpc = .exited → (Mon.run (trace c)).finalOk = true) ∧
-    (∀ (i : Nat) (t : Thread), c.2[i]? = some t → t.finished = false →
-      ∃ c', Reach sys c c' ∧ ∃ t', c'.2[i]? = some t' ∧ step c'.1 t' ≠ [])
-
 def windowCfg : Cfg St Thread := runSched sys (initSt 1 1, witnessThreads 1 (fun _ => 0)) (windowSched 1)
+def windowDupCfg : Cfg St Thread := runSched sys (initSt 1 1, witnessThreads 2 (fun _ => 0)) windowDupSched
+def windowBlockCfg : Cfg St Thread := runSched sys (initSt 1 1, witnessThreads 2 id) (windowSched 2)
+
+-- The forced schedule `window` on the repaired model: the producer is parked after its running check
+-- while Stop is invoked; Stop waits; the object is written, committed, done; everything terminates.
+set_option maxRecDepth 4000 in
+example : windowCfg.1.wpc = .exited ∧ (∀ t ∈ windowCfg.2, t.finished = true) ∧ okFinal (trace windowCfg) = true ∧
+    (Mon.run (trace windowCfg)).dn 0 = 1 ∧ (trace windowCfg).getLast? = some (.stopRet 0) := by decide
 
 set_option maxRecDepth 4000 in
-/-- **Witness (schedule `window`)**: one producer passes its `running` check, Stop runs to completion (the
+example : windowDupCfg.1.wpc = .exited ∧ (∀ t ∈ windowDupCfg.2, t.finished = true) ∧
+    okFinal (trace windowDupCfg) = true ∧ (Mon.run (trace windowDupCfg)).need 0 = 1 ∧
+    (Mon.run (trace windowDupCfg)).dn 0 = 1 := by decide
+
+set_option maxRecDepth 4000 in
+example : windowBlockCfg.1.wpc = .exited ∧ (∀ t ∈ windowBlockCfg.2, t.finished = true) ∧
+    okFinal (trace windowBlockCfg) = true ∧ (Mon.run (trace windowBlockCfg)).dn 1 = 1 := by decide
+
+/-! ### The old protocol (`sysOld`: running check before the counter increment) violates the statement -/
+
+def oldWindowCfg : Cfg St Thread := runSched sysOld (initSt 1 1, witnessThreads 1 (fun _ => 0)) (oldWindowSched 1)
+
+set_option maxRecDepth 4000 in
+/-- **Old code, schedule `window`**: one producer passes its `running` check, Stop runs to completion (the
 writer exits: nothing is counted), the producer continues: the object is marked scheduled, counted and
 queued, never written — and every call has returned. -/
-theorem C08_racing_enqueue_witness :
-    Reach sys (initSt 1 1, witnessThreads 1 (fun _ => 0)) windowCfg ∧
-    windowCfg.1.raced = true ∧ windowCfg.1.wpc = .exited ∧ (∀ t ∈ windowCfg.2, t.finished = true) ∧
-    ok (trace windowCfg) = true ∧ okFinal (trace windowCfg) = false ∧
-    (Mon.run (trace windowCfg)).finalVerdict = some .touchedNotWritten ∧
-    (Mon.run (trace windowCfg)).sch 0 = 1 ∧ (Mon.run (trace windowCfg)).wr 0 = 0 :=
+theorem C08_old_racing_enqueue_witness :
+    Reach sysOld (initSt 1 1, witnessThreads 1 (fun _ => 0)) oldWindowCfg ∧
+    oldWindowCfg.1.wpc = .exited ∧ (∀ t ∈ oldWindowCfg.2, t.finished = true) ∧
+    ok (trace oldWindowCfg) = true ∧ okFinal (trace oldWindowCfg) = false ∧
+    (Mon.run (trace oldWindowCfg)).finalVerdict = some .touchedNotWritten ∧
+    (Mon.run (trace oldWindowCfg)).sch 0 = 1 ∧ (Mon.run (trace oldWindowCfg)).wr 0 = 0 :=
   ⟨runSched_reach _ _ _, by decide⟩
 
-def windowDupCfg : Cfg St Thread := runSched sys (initSt 1 1, witnessThreads 2 (fun _ => 0)) windowDupSched
+def oldWindowDupCfg : Cfg St Thread := runSched sysOld (initSt 1 1, witnessThreads 2 (fun _ => 0)) oldWindowDupSched
 
 set_option maxRecDepth 4000 in
-/-- **Witness (schedule `window-dup`)**: producer 0 has marked the object scheduled but not yet counted it,
+/-- **Old code, schedule `window-dup`**: producer 0 has marked the object scheduled but not yet counted it,
 producer 1's `Enqueue` of the same object returns (already scheduled) before Stop is invoked, Stop returns:
 the object whose Enqueue returned before Stop was invoked has not been written. -/
-theorem C08_stop_waits_witness :
-    Reach sys (initSt 1 1, witnessThreads 2 (fun _ => 0)) windowDupCfg ∧
-    windowDupCfg.1.raced = true ∧ Why.stopReturnedEarly ∈ (Mon.run (trace windowDupCfg)).errs ∧
-    ok (trace windowDupCfg) = false ∧ (Mon.run (trace windowDupCfg)).need 0 = 1 ∧
-    (Mon.run (trace windowDupCfg)).dn 0 = 0 :=
+theorem C08_old_stop_waits_witness :
+    Reach sysOld (initSt 1 1, witnessThreads 2 (fun _ => 0)) oldWindowDupCfg ∧
+    Why.stopReturnedEarly ∈ (Mon.run (trace oldWindowDupCfg)).errs ∧
+    ok (trace oldWindowDupCfg) = false ∧ (Mon.run (trace oldWindowDupCfg)).need 0 = 1 ∧
+    (Mon.run (trace oldWindowDupCfg)).dn 0 = 0 :=
   ⟨runSched_reach _ _ _, by decide⟩
 
 /-- no thread can move -/
-def stuckB (c : Cfg St Thread) : Bool := c.2.all (fun t => (step c.1 t).isEmpty)
+def stuckB (S : Sys St Thread) (c : Cfg St Thread) : Bool := c.2.all (fun t => (S.step c.1 t).isEmpty)
 
-theorem stuck_of_stuckB {c : Cfg St Thread} (h : stuckB c = true) : Stuck sys c := by
+theorem stuck_of_stuckB {S : Sys St Thread} {c : Cfg St Thread} (h : stuckB S c = true) : Stuck S c := by
   intro t ht
   have := List.all_eq_true.mp h t ht
-  show step c.1 t = []
   simpa [List.isEmpty_iff] using this
 
-def windowBlockCfg : Cfg St Thread := runSched sys (initSt 1 1, witnessThreads 2 id) (windowSched 2)
+def oldWindowBlockCfg : Cfg St Thread := runSched sysOld (initSt 1 1, witnessThreads 2 id) (oldWindowSched 2)
 
 set_option maxRecDepth 4000 in
-/-- **Witness (schedule `window-block`)**: queue size 1, two producers inside the window while Stop
+/-- **Old code, schedule `window-block`**: queue size 1, two producers inside the window while Stop
 completes; the first fills the queue, the second blocks on the queue send for ever: a deadlock (no thread can
 move, producer 1 has not finished). -/
-theorem C08_no_block_forever_witness :
-    Reach sys (initSt 1 1, witnessThreads 2 id) windowBlockCfg ∧
-    Deadlock sys (fun t => t.finished = true) windowBlockCfg ∧
-    windowBlockCfg.1.raced = true ∧ windowBlockCfg.2[1]? = some (.prod 1 .send 1 []) :=
-  ⟨runSched_reach _ _ _, ⟨stuck_of_stuckB (by decide), .prod 1 .send 1 [], by decide, by decide⟩, by decide, by decide⟩
+theorem C08_old_no_block_forever_witness :
+    Reach sysOld (initSt 1 1, witnessThreads 2 id) oldWindowBlockCfg ∧
+    Deadlock sysOld (fun t => t.finished = true) oldWindowBlockCfg ∧
+    oldWindowBlockCfg.2[1]? = some (.prod 1 .send 1 []) :=
+  ⟨runSched_reach _ _ _, ⟨stuck_of_stuckB (by decide), .prod 1 .send 1 [], by decide, by decide⟩, by decide⟩
 
-/-- The model (hence the code it mirrors) does not satisfy the full statement. -/
-theorem C08_statement_witness : ¬ C08_statement := by
+/-- The old protocol does not satisfy the full statement. -/
+theorem C08_old_statement_witness : ¬ C08_statement_for sysOld := by
   intro h
   have hw : Thread.writer ∈ (initSt 1 1, witnessThreads 1 (fun _ => 0)).2 := by decide
-  have := (h 1 1 _ windowCfg (by decide) (init_witness 1 1 _) hw C08_racing_enqueue_witness.1).2.1
-    C08_racing_enqueue_witness.2.2.1
-  have h2 := C08_racing_enqueue_witness.2.2.2.2.2.1
-  simp [okFinal, C08_racing_enqueue_witness.2.2.2.2.1] at h2
+  have := (h 1 1 _ oldWindowCfg (by decide) (init_witness 1 1 _) hw C08_old_racing_enqueue_witness.1).2.1
+    C08_old_racing_enqueue_witness.2.1
+  have h2 := C08_old_racing_enqueue_witness.2.2.2.2.1
+  simp [okFinal, C08_old_racing_enqueue_witness.2.2.2.1] at h2
   simp [h2] at this
-
 
 /-! ### Regenerated tie: the synchronisation skeletons the protocol model was written against
 
 `Hive/Gen/C08_Skel.lean` is regenerated from kvstore/batch_writer.go and batch_collector.go on every run.  The
-model's atomic steps are exactly these operations in this order (Once body; running check, object flag
-test-and-set, counter increment, queue send; lock / load / store / Wait / unlock; loop condition's two loads,
+model's atomic steps are exactly these operations in this order (Once body; counter increment, running check
+with the decrement on the way out, object flag test-and-set with the decrement on the way out, queue send; lock / load / store / Wait / unlock; loop condition's two loads,
 select over queue / flush / timer, reset / decrement / BatchWrite, Commit then the Done loop; Add before `go`).
 A change of the code's lock / channel / atomic / WaitGroup structure breaks these obligations. -/
 
 open Hive.Gen.C08Skel in
 theorem C08_skeleton_Enqueue : skel_BatchedWriter_Enqueue =
     ["func{", "call bw.running.Load", "if{", "helper startBatchWriter", "}if", "}func",
-      "call bw.autoStartOnce.Do", "call bw.running.Load", "if{", "return", "}if",
-      "call object.BatchWriteScheduled", "if{", "return", "}if", "call bw.scheduledCount.Add",
-      "send bw.batchQueue"] := by decide
+      "call bw.autoStartOnce.Do", "call bw.scheduledCount.Add", "call bw.running.Load", "if{",
+      "call bw.scheduledCount.Add", "return", "}if", "call object.BatchWriteScheduled", "if{",
+      "call bw.scheduledCount.Add", "return", "}if", "send bw.batchQueue"] := by decide
 
 open Hive.Gen.C08Skel in
 theorem C08_skeleton_startBatchWriter : skel_BatchedWriter_startBatchWriter =
